@@ -378,7 +378,13 @@ class _GlobSplit(Generic[AnyStr]):
             else:
                 gstar = b'**' if is_bytes else '**'
                 is_globstarlong = False
-            parts.insert(0, _GlobPart(gstar, True, True, is_globstarlong, True, False))
+            if parts[0].is_globstar:
+                # The pattern's own leading `globstar` merges with the implicit one
+                parts[0] = _GlobPart(
+                    parts[0].pattern, True, True, is_globstarlong or parts[0].is_globstarlong, parts[0].dir_only, False
+                )
+            else:
+                parts.insert(0, _GlobPart(gstar, True, True, is_globstarlong, True, False))
 
         if self.no_abs and parts and parts[0].is_drive:
             raise ValueError('The pattern must be a relative path pattern')
